@@ -401,11 +401,15 @@ def run(ctx):
                          " (report \"%s\" \"copy2-independent\" (fn [] (drv (rt-dict orig)))))" % (src, drv, aid, aid, aid))
             exp.append((aid, "asm-disasm", src, drv))
         # PEG round trips (behaviour = match results on texts)
-        g = model_peg.Gen(rng)
         for ci in range(40):
+            g = model_peg.Gen(rng)
             rules = g.grammar(rng.choice([1, 2, 3]))
             gsrc = model_peg.emit_grammar(rules)
-            texts = " ".join(jbytes(g.text()) for _ in range(4))
+            tlist = [g.text() for _ in range(4)]
+            # the reference interpreter's step budget screens out grammars with exponential backtracking on these texts
+            if any(model_peg.match(rules, t)[0] in ("budget", "unmodelled") for t in tlist):
+                continue
+            texts = " ".join(jbytes(t) for t in tlist)
             pid = "p%d" % ci
             drv = "(fn [pg] (string/join (map (fn [t] (string/format \"%%j\" (first (protect (canon (peg/match pg t)))))) [%s]) \" \"))" % texts
             lines.append("(do %s (def orig (protect (peg/compile %s)))\n (when (orig 0) (def drv %s)\n (report \"%s\" \"orig\" (fn [] (drv (orig 1))))\n"
